@@ -304,6 +304,20 @@ __CPROVER_ensures(g_ctx.code == __CPROVER_old(g_ctx.code) && g_ctx.last == __CPR
 __CPROVER_ensures(VC_BN_NF(c) && vc_mag(c) == (bits < RLC_DIG * VC_W ? (VC_MAG_OLD(a) >> bits) : (vc_wide)0) && (c->sign == __CPROVER_old(a->sign) || vc_mag(c) == 0))
 ;
 
+#ifndef VC_SHAPE_bn_mod_2b
+#define VC_SHAPE_bn_mod_2b VC_S2_GEN
+#endif
+/* reduction modulo 2^b (C09): the magnitude keeps its b low bits, the sign is kept unless the result is zero; b <= 0 gives zero */
+void bn_mod_2b(bn_t c, const bn_t a, int b)
+__CPROVER_requires(VC_BN_FRESH(a))
+__CPROVER_requires(VC_REQ2_C(VC_SHAPE_bn_mod_2b, c, a))
+__CPROVER_requires(VC_BN_NF(a) && VC_BN_OUT(c) && b >= -4 && b <= 2 * (int)(RLC_BN_SIZE * RLC_DIG))
+VC_ASSIGNS(__CPROVER_object_whole(c), g_ctx.code, g_ctx.last, g_ctx.error, g_ctx.number, g_thrown)
+__CPROVER_ensures(g_ctx.code == __CPROVER_old(g_ctx.code) && g_ctx.last == __CPROVER_old(g_ctx.last))
+__CPROVER_ensures(VC_BN_NF(c) && (c->sign == __CPROVER_old(a->sign) || vc_mag(c) == 0))
+__CPROVER_ensures(vc_mag(c) == (b <= 0 ? (vc_wide)0 : b >= (int)(RLC_DIG * VC_W) ? VC_MAG_OLD(a) : (VC_MAG_OLD(a) & ((((vc_wide)1) << b) - 1))))
+;
+
 /* number of significant bits of a digit (x64: lzcnt instruction through a context function pointer - trusted there;
    ARCH=none: table implementation, enforced) */
 size_t util_bits_dig(dig_t a)
